@@ -2,6 +2,7 @@ package oracle
 
 import (
 	"fmt"
+	"strings"
 	"io"
 	"regexp"
 	"sort"
@@ -52,6 +53,11 @@ func checkC10race(ctx *core.Ctx, rep *core.Report) {
 		vec string
 	}
 	observed := make([][]obs, 16) // one slice per goroutine: no shared lock that would order the goroutines
+	type filterObs struct {
+		second lint.LintSource
+		names  string
+	}
+	var filterSeen []filterObs
 	for w := 0; w < G; w++ {
 		w := w
 		wg.Add(1)
@@ -81,6 +87,14 @@ func checkC10race(ctx *core.Ctx, rep *core.Report) {
 					observed[w] = append(observed[w], obs{k, v})
 				case 3:
 					zl.Lint(o, fr)
+					// overlapping source lists from every goroutine: [A, x] with the same first source and a rotating second one
+					srcsAll := sortedSources(g)
+					if fr2, err := g.Filter(lint.FilterOptions{IncludeSources: lint.SourceList{lint.CABFBaselineRequirements, srcsAll[(i+w)%len(srcsAll)]}}); err == nil {
+						got := fr2.Names()
+						mu.Lock()
+						filterSeen = append(filterSeen, filterObs{srcsAll[(i+w)%len(srcsAll)], strings.Join(got, ",")})
+						mu.Unlock()
+					}
 					if _, err := g.Filter(lint.FilterOptions{NameFilter: regexp.MustCompile("^w_")}); err != nil {
 						mu.Lock()
 						mismatch["filter error"] = true
@@ -115,6 +129,18 @@ func checkC10race(ctx *core.Ctx, rep *core.Report) {
 			if ob.vec != ref[ob.k] {
 				mismatch[work[ob.k].Name] = true
 			}
+		}
+	}
+	// every concurrent Filter([CABF_BR, x]) must have selected what the same call selects alone
+	alone := map[lint.LintSource]string{}
+	for _, fo := range filterSeen {
+		if _, ok := alone[fo.second]; !ok {
+			if r, err := g.Filter(lint.FilterOptions{IncludeSources: lint.SourceList{lint.CABFBaselineRequirements, fo.second}}); err == nil {
+				alone[fo.second] = strings.Join(r.Names(), ",")
+			}
+		}
+		if alone[fo.second] != fo.names {
+			mismatch[fmt.Sprintf("Filter(IncludeSources [CABF_BR %s])", fo.second)] = true
 		}
 	}
 	rep.Add("states", int64(len(work)*G))
